@@ -162,6 +162,7 @@ class SrvAdapter:
 
     def reset(self):
         cfg = self.cfg
+        self._nsteps = 0
         kw = dict(async_handlers=cfg.get('async_handlers', False),
                   always_connect=cfg.get('always_connect', False),
                   ping_timeout=10 ** 6, ping_interval=10 ** 6,
@@ -422,6 +423,32 @@ class SrvAdapter:
             return [RAW_FRAMES[a['frame']]]
         raise KeyError(act)
 
+    def _fuzz_frame(self, a):
+        """An arbitrary frame (C12 random tier): a function of the action's
+        seed and of what a hostile client may know or guess - the
+        namespaces, the event names, the bystanders' session ids and
+        outstanding ack ids."""
+        from . import fuzz
+        off = a['t']
+        mine = self.owned.get(off, set())
+        sids = sorted(s for s in self.names if s not in mine)
+        ack_ids = sorted({i for s in sids for i in dict.get(
+            self.sio.manager.callbacks, s, {}) if isinstance(i, int)})
+        my_nss = sorted(ns for ns, rs in self.sio.manager.rooms.items()
+                        if any(x in mine for x in (rs.get(None) or {})))
+        env = {'nss': list(self.cfg['ns_all']) + ['/zzz'], 'my_nss': my_nss,
+               'events': sorted(EVENTS) + ['*', 'nobody'],
+               'sids': sids, 'ack_ids': ack_ids,
+               'stuck': bool(getattr(self.sio, '_binary_packet', {}).get(
+                   self.eid.get(off))),
+               'serializer': self.cfg.get('serializer')}
+        # (a different frame at every position of a history; a replay of
+        # the history sends the same frames)
+        from . import common
+        self.last_fuzz = fuzz.frame(
+            (common.seed() * 1009 + a['seed']) * 100003 + self._nsteps, env)
+        return self.last_fuzz
+
     def _feed(self, t, frame):
         s = self.socks[t]
         return self._run(s.receive(eio_packet.Packet(eio_packet.MESSAGE,
@@ -458,6 +485,7 @@ class SrvAdapter:
         """Execute one abstract action against the real server; return the
         observed output record."""
         sio = self.sio
+        self._nsteps += 1
         self.hc = []
         self.cbs = []
         self.bgexc = []
@@ -503,6 +531,8 @@ class SrvAdapter:
                          'RxRaw'):
                 for f in self._frames(a):
                     self._feed(a['t'], f)
+            elif act == 'RxFuzz':
+                self._feed(a['t'], self._fuzz_frame(a))
             elif act == 'RxFrame':
                 # one frame of a multi-frame packet (binary header or
                 # attachment), see alphabet: {'kind': 'hdr'|'att', ...}
@@ -586,7 +616,7 @@ class SrvAdapter:
         self._track_owned()
         if self.tap.seen and res == ['ok']:
             res = ['contained'] + list(self.tap.seen)
-            if act == 'RxRaw':
+            if act in ('RxRaw', 'RxFuzz'):
                 res = ['contained', 'X']   # which exception is immaterial
             if act == 'RxFrame' and self.cfg.get('serializer') == 'msgpack':
                 res = ['contained', 'ValueError']
